@@ -228,6 +228,14 @@ def run(ctx):
         ctx.check(bool(fs) and fs[0].id in preach, "R14.3", prep_opts, "visits:" + k,
                   "prepare_options() does not reach %s::prepare()" % k, prep_opts)
 
+    # ... unconditionally: in every instantiation of the visiting lambda the call of prepare() happens on all paths
+    vis = [g for g in prog.fns.values() if g.kind == "lambda" and g.has_cfg and g.id.startswith(prep_opts.id + "::") and g.flags.get("instantiation")]
+    ctx.need("R14.3", "instantiations of the visiting lambda in prepare_options()", len(vis), 3)
+    for g in vis:
+        okp, path = cfg.must_happen_before_exit(g, lambda e: any(short(n.get("name") or "") == "prepare" for n in elem_calls(e)))
+        kind = short((g.params[0].get("type") or "?").replace("&", "").strip()) if g.params else "?"
+        ctx.check(okp, "R14.3", g, "prepare-unconditional:" + kind, "prepare_options() skips prepare() for some %s objects (path B%s): state that check() stored without marking the option as "
+                  "given - a default - is not reset and outranks the environment / blocks the command line in the next parse" % (kind, "->B".join(map(str, path or []))), g)
     # ---- R14.4: parser's own state and statics
     pfields = class_fields(prog, NS + "parser")
     full_reach = cg.reachable([parse.id])
